@@ -194,6 +194,12 @@ def _d_body(layout, order, crlf):
             with open(p, 'w', encoding='utf-8', newline='') as f:
                 f.write(text.replace('\n', '\r\n') if crlf else text)
             files[p] = text
+        if lay == 'dir-recursive':
+            # the same file NAME in another directory is another file
+            p2 = os.path.join(tmp, 'deep', 'a.krn')
+            with open(p2, 'w', encoding='utf-8', newline='') as f:
+                f.write(SCORES[perm[1]])
+            files[p2] = SCORES[perm[1]]
         with open(os.path.join(tmp, 'ignored.txt'), 'w') as f:
             f.write('not a score')
         if lay == 'single':
